@@ -340,7 +340,7 @@ Fixpoint lig_loop (actions comps ligs : list N) (ps : list nat)
           match nth_error comps (Z.to_nat ci) with
           | None => Ok (ml, b1, AMB_TABLE)
           | Some cv =>
-            let lidx' := (lidx + cv) mod 65536 in    (* u16 accumulator, release arithmetic *)
+            let lidx' := lidx + cv in                (* u32 accumulator: cannot wrap (at most 64 u16 components) *)
             if has action 0xC0000000 then
               match nth_error ligs (N.to_nat lidx') with
               | None => Ok (ml, b1, AMB_TABLE)
